@@ -2,6 +2,7 @@ package main
 
 import (
 	"fmt"
+	"regexp"
 	"strings"
 )
 
@@ -12,7 +13,7 @@ type stmtText struct {
 }
 
 // joinStmts concatenates statements, using ASI instead of ';' where that is safe.
-func (g *gen) joinStmts(list []stmtText) string {
+func (g *gen) joinStmts(list []stmtText, closed bool) string {
 	var b strings.Builder
 	for i, st := range list {
 		b.WriteString(st.s)
@@ -25,7 +26,7 @@ func (g *gen) joinStmts(list []stmtText) string {
 			asiSafe := next != "" && !strings.ContainsAny(next[:1], "([`+-/*.,?=<>&|^%!~\n") && !startsWithAny(next, "in", "instanceof", "of")
 			if !last && g.ws > 0 && asiSafe && g.r.Chance(1, 3) && !strings.HasSuffix(st.s, "++") && !strings.HasSuffix(st.s, "--") {
 				b.WriteString("\n")
-			} else if last && g.r.Chance(1, 2) {
+			} else if last && closed && g.r.Chance(1, 2) {
 				// last statement of a list: the terminator may be omitted before '}' or EOF
 			} else {
 				b.WriteString(";")
@@ -41,7 +42,11 @@ func (g *gen) joinStmts(list []stmtText) string {
 }
 
 // stmtList generates n statements in the current scope.
-func (g *gen) stmtList(n, d int, top bool) string {
+func (g *gen) stmtList(n, d int, top bool) string { return g.stmtListC(n, d, top, false) }
+
+// stmtListC: closed means the list is directly followed by '}' or the end of the program, so
+// that the terminator of the last statement may be left out.
+func (g *gen) stmtListC(n, d int, top bool, closed bool) string {
 	var list []stmtText
 	var deferred []stmtText
 	for i := 0; i < n; i++ {
@@ -59,7 +64,7 @@ func (g *gen) stmtList(n, d int, top bool) string {
 		}
 	}
 	list = append(list, deferred...)
-	return g.joinStmts(list)
+	return g.joinStmts(list, closed)
 }
 
 func one(s string, semi bool) []stmtText { return []stmtText{{s: s, semi: semi}} }
@@ -78,7 +83,7 @@ func (g *gen) exprStmtText(e ex) string {
 
 func (g *gen) blockBody(n, d int) string {
 	g.push(false)
-	s := g.stmtList(n, d, false)
+	s := g.stmtListC(n, d, false, true)
 	g.pop()
 	return s
 }
@@ -140,10 +145,11 @@ func (g *gen) declKind() kind {
 	return kAny
 }
 
-func (g *gen) newVarName(top bool) string {
+func (g *gen) newVarName(top bool, kw string) string {
 	r := g.r
-	// occasionally reuse the spelling of the renamer's first names for locals
-	if !top && r.Chance(1, 12) {
+	// occasionally reuse the spelling of the renamer's first names for locals (var only: a
+	// let/const would put earlier uses of the global into its temporal dead zone)
+	if !top && kw == "var" && r.Chance(1, 8) {
 		n := r.Pick("e", "t", "n", "s", "o", "i", "a", "r", "ee", "te")
 		clash := false
 		for _, sc := range g.scopes[1:] {
@@ -160,7 +166,27 @@ func (g *gen) newVarName(top bool) string {
 	return g.fresh("v")
 }
 
+var reFnDecl = regexp.MustCompile(`^(async )?function(\*?)\s*([A-Za-z0-9_$]+)\(`)
+
+// stmt generates one statement (sometimes a short group).  Function declarations inside
+// blocks of sloppy code are turned into var-assigned function expressions: Annex B
+// block-function semantics are outside the property's domain.
 func (g *gen) stmt(d int, top bool) []stmtText {
+	sts := g.stmt0(d, top)
+	if g.cur().isFunc || g.strictNow() {
+		return sts
+	}
+	for i := range sts {
+		if sts[i].fn {
+			sts[i].s = reFnDecl.ReplaceAllString(sts[i].s, "var $3=${1}function$2(")
+			sts[i].fn = false
+			sts[i].semi = true
+		}
+	}
+	return sts
+}
+
+func (g *gen) stmt0(d int, top bool) []stmtText {
 	g.budget--
 	r := g.r
 	if d <= 0 || g.budget <= 0 {
@@ -251,7 +277,7 @@ func (g *gen) varDeclStmt(d int, top bool) []stmtText {
 	var parts []string
 	var decls []*variable
 	for i := 0; i < n; i++ {
-		name := g.newVarName(top)
+		name := g.newVarName(top, kw)
 		k := g.declKind()
 		if g.level >= 2020 && r.Chance(1, 25) {
 			k = kBig
@@ -343,8 +369,7 @@ func (g *gen) ifStmt(d int) []stmtText {
 		}
 		return one(s, false)
 	case 7: // if(a){}else b  (only with a side-effect-free or call-only condition, K03)
-		cc := g.leaf(kAny).s
-		return one("if("+cc+"){}else "+simple(), true)
+		return one("if("+c+"){}else "+simple(), true)
 	case 8: // if(a)b;else{}
 		return one("if("+c+")"+simple()+";else{}", false)
 	default:
@@ -564,9 +589,6 @@ func (g *gen) switchStmt(d int) []stmtText {
 			body = "{" + body + "}"
 		}
 		b.WriteString(body)
-		if !strings.HasSuffix(body, ";") && !strings.HasSuffix(body, "}") {
-			b.WriteString(";")
-		}
 		if r.Chance(2, 3) {
 			b.WriteString("break;")
 		}
@@ -589,7 +611,7 @@ func (g *gen) tryStmt(d int) []stmtText {
 		if r.Chance(1, 3) {
 			th = r.Pick("new Error(\"x\")", "new TypeError(\"t\")", "{a:1}", "null.a", "undefined_name_1")
 		}
-		b.WriteString(";if(" + g.condTest(d-1).s + ")throw " + th)
+		b.WriteString("if(" + g.condTest(d-1).s + ")throw " + th)
 	}
 	g.pop()
 	b.WriteString("}")
@@ -658,7 +680,10 @@ func (g *gen) funcParts(d int, fc *fctx, nStmts int, exprBody bool) (params stri
 			g.declare(&variable{name: p, k: kAny, mut: true, decl: "param"})
 			ps = append(ps, p+"="+def)
 			simple = false
-		case 1: // destructured with default
+		case 1: // destructured with default (the minifier's parser rejects these in arrow functions)
+			if fc.isArrow {
+				break
+			}
 			p, q := g.fresh("p"), g.fresh("p")
 			g.declare(&variable{name: p, k: kAny, mut: true, decl: "param"})
 			g.declare(&variable{name: q, k: kAny, mut: true, decl: "param"})
@@ -690,10 +715,6 @@ func (g *gen) funcParts(d int, fc *fctx, nStmts int, exprBody bool) (params stri
 		}
 		b.WriteString(g.stmtList(nStmts, d-1, false))
 		if r.Chance(3, 4) && !fc.isCtor() {
-			s := b.String()
-			if s != "" && !strings.HasSuffix(s, ";") && !strings.HasSuffix(s, "}") && !strings.HasSuffix(s, "\n") {
-				b.WriteString(";")
-			}
 			b.WriteString(g.returnText(d - 1))
 		}
 		body = b.String()
@@ -912,9 +933,10 @@ func (g *gen) classDeclStmt(d int, top bool) []stmtText {
 	// instantiate
 	inst := g.fresh("v")
 	kw := g.declKeyword()
+	instArgs := g.args(r.Intn(2), d-1)
 	g.declare(&variable{name: inst, k: kObj, mut: false, decl: kw, meths: meths})
 	g.registerTop(inst, kw, top)
-	out = append(out, stmtText{s: cat(kw, inst+"=new "+name+g.args(r.Intn(2), d-1)), semi: true})
+	out = append(out, stmtText{s: cat(kw, inst+"=new "+name+instArgs), semi: true})
 	if len(meths) > 0 {
 		out = append(out, stmtText{s: g.host() + "(" + inst + "." + meths[0] + g.args(r.Intn(2), d-1) + ")", semi: true})
 	}
@@ -924,7 +946,7 @@ func (g *gen) classDeclStmt(d int, top bool) []stmtText {
 func (g *gen) labelledStmt(d int) []stmtText {
 	r := g.r
 	g.kindHit("label")
-	l := g.fresh("L")
+	l := g.fresh("lbl_")
 	g.fn.labels = append(g.fn.labels, l)
 	defer func() { g.fn.labels = g.fn.labels[:len(g.fn.labels)-1] }()
 	if r.Bool() {
@@ -934,11 +956,7 @@ func (g *gen) labelledStmt(d int) []stmtText {
 		brk := "if(" + g.condTest(d-1).s + ")break " + l + ";"
 		rest := g.stmtList(1+r.Intn(2), d-1, false)
 		g.pop()
-		sep := ""
-		if inner != "" && !strings.HasSuffix(inner, ";") && !strings.HasSuffix(inner, "}") {
-			sep = ";"
-		}
-		return one(l+":{"+inner+sep+brk+rest+"}", false)
+		return one(l+":{"+inner+brk+rest+"}", false)
 	}
 	g.fn.loopLbl = append(g.fn.loopLbl, l)
 	defer func() { g.fn.loopLbl = g.fn.loopLbl[:len(g.fn.loopLbl)-1] }()
@@ -1124,7 +1142,7 @@ func (g *gen) idiom(d int, top bool) []stmtText {
 		n := v.name
 		return one(h()+"(1<! --"+n+","+n+"-- >0,"+n+"< !--"+n+")", true)
 	case 12: // regex next to division
-		v := g.varOf(kNum)
+		v := g.mutVarOf(kNum)
 		n := "g0"
 		if v != nil {
 			n = v.name
@@ -1144,9 +1162,9 @@ func (g *gen) idiom(d int, top bool) []stmtText {
 	case 15: // typeof guards
 		return one("if(typeof "+r.Pick("nope1", "g0", "h0", "undefined")+r.Pick("===", "!==", "==", "!=")+r.Pick("\"undefined\"", "'function'", "\"number\"")+")"+h()+"(1);else "+h()+"(2)", true)
 	case 16: // comma / conditional chains at statement level
-		return one(c()+"?"+h()+"(1):"+c()+"?"+h()+"(2):"+h()+"(3)", true)
+		return one(g.exprStmtText(ex{s: c() + "?" + h() + "(1):" + c() + "?" + h() + "(2):" + h() + "(3)", p: pCond}), true)
 	case 17: // logical statement chains
-		return one(c()+"&&"+h()+"(1)||"+h()+"(2)", true)
+		return one(g.exprStmtText(ex{s: c() + "&&" + h() + "(1)||" + h() + "(2)", p: pOr}), true)
 	case 18: // nested function declarations with closures over renamed locals
 		f, inner := g.fresh("f"), g.fresh("f")
 		a, b := g.fresh("v"), g.fresh("v")
